@@ -59,6 +59,10 @@ def family(name, k, root):
                 [{'k': 'filter', 'f': 'cpred', 'args': ['image'], 'table': []}]}, 'ids', None
     if name == 'diamond-groupby':
         return {'k': 'chain', 'flavour': 'chain', 'layers': [src] + [crop(j) for j in range(k)] + [{'k': 'groupby', 'by': 'key'}]}, 'ids', None
+    if name == 'diamond-const-groupby':
+        # the diamond pattern over a field that depends on no input, under a layer that takes static graph hashes of every field
+        s3 = dict(src, cls='CSC', fields=dict(src['fields'], classes={'args': []}))
+        return {'k': 'chain', 'flavour': 'chain', 'layers': [s3] + [crop(j, 'classes') for j in range(k)] + [{'k': 'groupby', 'by': 'key'}]}, 'ids', None
     if name == 'chain':
         layers = [src] + [{'k': 'transform', 'cls': f'Ch', 'fields': {'image': {'args': ['image'], 'f': 'ch.image'}}, 'params': {},
                            'cargs': {}, 'defaults': {}, 'inherit': True} for j in range(k)]
@@ -71,7 +75,7 @@ def family(name, k, root):
     raise ValueError(name)
 
 
-FAMILIES = ['diamond', 'diamond-ram', 'diamond-disk', 'diamond-meta', 'diamond-filter', 'diamond-groupby', 'chain', 'fanin']
+FAMILIES = ['diamond', 'diamond-ram', 'diamond-disk', 'diamond-meta', 'diamond-filter', 'diamond-groupby', 'diamond-const-groupby', 'chain', 'fanin']
 
 
 def measure_family(name, sizes, call_cached=True):
